@@ -70,6 +70,7 @@ def run(ctx):
     from .c09 import per_instance_registries
     per_instance_registries(ctx, 'C14.D2', ('bus',),
                             'connections of the bus share one table')
+    registered_implies_unregistered(ctx)
     ctx.floor('C14.D1', 20)
     ctx.floor('C14.D2', 3)
     ctx.floor('C14.D3', 2)
@@ -331,6 +332,49 @@ def rule_lifecycle(ctx):
            'RemoveMatch must remove the caller\'s rule from the router')
     if rmf is not None:
         removematch_accounting(ctx, rmf)
+
+
+def registered_implies_unregistered(ctx):
+    """The bus registers a connection (unique name, client table) when its
+    first message arrives - whatever that message is.  When the transport is
+    lost the registration must be undone under a condition no narrower than
+    that: connectionLost may skip clientDisconnected only on a path that
+    established the connection was never registered (no bus attached yet, or
+    no unique name).  Any other reason to skip ("never said Hello") leaves a
+    dead connection owning its names: later messages to them are written to
+    it and waiting clients are never promoted."""
+    prog = ctx.prog
+    bp = prog.cls('bus.BusProtocol')
+    cl = prog.lookup_method(bp, 'connectionLost')
+    selft = ('param', 'self')
+    n = 0
+    for p in Interp(prog, exc_edges=False, self_cls=bp,
+                    fork_boolop=True).run(cl):
+        if p.outcome == 'raise':
+            continue
+        n += 1
+        calls = any((c[1] or '').endswith('.clientDisconnected') or (
+            kind(c[2]) == 'attr' and c[2][2] == 'clientDisconnected')
+            for c in p.calls())
+        if calls:
+            continue
+        never = False
+        for c, pol in p.cond:
+            if kind(c) == 'cmp' and c[3] == NONE and c[1] in ('is', 'is not') \
+                    and c[2] in (('attr', selft, 'bus'),
+                                 ('attr', selft, 'uniqueName')) and \
+                    ((c[1] == 'is') == pol):
+                never = True
+            if c in (('attr', selft, 'bus'),
+                     ('attr', selft, 'uniqueName')) and not pol:
+                never = True
+        ctx.ob('C14.D2', cl.qualname, 'registered-implies-unregistered',
+               never, 'the lost connection is not reported to the bus on a '
+               'path that did not establish it was never registered (%s): '
+               'its unique name and the names it owns stay in the bus tables'
+               % [(term_str(c)[:40], pol) for c, pol in p.cond])
+    if n == 0:
+        raise AnalysisError('BusProtocol.connectionLost has no normal path')
 
 
 def _is_rules_table(t):
